@@ -15,17 +15,22 @@ Strings stay percent-encoded: only their identity matters to the model.
 open Refinery.Model.Transmit Oracle
 
 structure OSt where
-  cfg : Cfg := ⟨1, 4, fun _ => false⟩
+  cfg : Cfg := ⟨1, 4, fun _ => false, id⟩
   dests : List Dest := []
   st : Option St := none
   nextId : Nat := 0
 
 def tail1 (s : String) : String := String.ofList (s.toList.drop 1)
 
-def parseDest (tok : String) : Dest × Bool :=
+/-- destination and its class: `ok`, `bad` (URL cannot be built), `dot` (dataset `""`, `.` or `..`) -/
+def parseDest (tok : String) : Dest × String :=
   match tok.splitOn "|" with
-  | [h, k, d, c] => (⟨h, k, d⟩, c == "bad")
-  | _ => (⟨tok, "", ""⟩, false)
+  | [h, k, d, c] => (⟨h, k, d⟩, c)
+  | _ => (⟨tok, "", ""⟩, "ok")
+
+/-- the header carries strings percent-encoded (`%` is the empty string); only the three dataset
+names `url.JoinPath` cleans away matter to the model, every other token stands for itself -/
+def escOfTok (tok : String) : String := if tok == "%" then "" else tok
 
 def scriptOf (op : List String) : List String :=
   match op.findSome? (fun a => match a.splitOn "=" with | ["s", v] => some v | _ => none) with
@@ -82,9 +87,17 @@ def sortInt (l : List Int) : List Int := l.foldr insInt []
 
 def idxOf (ds : List Dest) (d : Dest) : Nat := (ds.findIdx? (· == d)).getD 999
 
-def insGroup (g : Nat × List String) : List (Nat × List String) → List (Nat × List String)
+/-- group key: `(0, raw)` for a request that does not go to any event's own endpoint (these sort
+first, by `raw`), `(i + 1, "")` for destination `i` -/
+abbrev GKey := Nat × String
+
+def gLt (a b : GKey) : Bool := a.1 < b.1 || (a.1 == b.1 && a.2 < b.2)
+
+def insGroup (g : GKey × List String) : List (GKey × List String) → List (GKey × List String)
   | [] => [g]
-  | h :: t => if g.1 < h.1 then g :: h :: t else if g.1 == h.1 then (h.1, h.2 ++ g.2) :: t else h :: insGroup g t
+  | h :: t => if gLt g.1 h.1 then g :: h :: t else if g.1 == h.1 then (h.1, h.2 ++ g.2) :: t else h :: insGroup g t
+
+def gLabel (k : GKey) : String := if k.1 == 0 then s!"d?{k.2}" else s!"d{k.1 - 1}"
 
 def obsOf (o : OSt) (s : St) (newDisps : List Disp) (toks : List String) : String :=
   let c := s.ctr
@@ -99,9 +112,14 @@ def obsOf (o : OSt) (s : St) (newDisps : List Disp) (toks : List String) : Strin
       let recs := p.2.log.map fun a =>
         let ids := ".".intercalate (a.events.map fun e => toString e.id)
         s!"{a.bodyLen}|{ids}|{a.time}|{toks.getD a.sidx "ok"}"
-      insGroup (idxOf o.dests p.1.dest, recs) acc) []
+      let key : GKey := match p.2.log.head? with
+        | some a =>
+          if a.path == ownPath (o.cfg.esc a.dest.dataset) then (idxOf o.dests p.1.dest + 1, "")
+          else (0, s!"{a.dest.host}~/{"/".intercalate a.path}~{a.dest.key}")
+        | none => (idxOf o.dests p.1.dest + 1, "")
+      insGroup (key, recs) acc) []
   let as := if groups.isEmpty then "-"
-    else ";".intercalate (groups.map fun g => s!"d{g.1}@{",".intercalate g.2}")
+    else ";".intercalate (groups.map fun g => s!"{gLabel g.1}@{",".intercalate g.2}")
   s!"g={g} c={cs} sl={sls} a={as} w=0"
 
 def oStep (o : OSt) (op : List String) (exts : List (List String)) : OSt × Option String :=
@@ -136,8 +154,8 @@ def oStep (o : OSt) (op : List String) (exts : List (List String)) : OSt × Opti
 def oInit (args : List String) : OSt :=
   let nat (k : String) := ((kv args k).getD "0").toNat?.getD 0
   let ds := (List.range (nat "nd")).map fun i => parseDest ((kv args s!"d{i}").getD "?")
-  let bad := (ds.filter (·.2)).map (·.1)
-  { cfg := ⟨nat "mb", nat "bt" * 1000000, fun d => bad.contains d⟩, dests := ds.map (·.1) }
+  let bad := (ds.filter (·.2 == "bad")).map (·.1)
+  { cfg := ⟨nat "mb", nat "bt" * 1000000, fun d => bad.contains d, escOfTok⟩, dests := ds.map (·.1) }
 
 /-! ## Monitor: C26 on the implementation's own observations -/
 
@@ -151,14 +169,15 @@ structure MEv where
 structure MSt where
   mb : Nat := 0
   bt : Nat := 0
-  bad : List Nat := []          -- indices of destinations whose URL cannot be built
+  bad : List Nat := []          -- destinations whose requests cannot be attributed: URL cannot be
+                                -- built, or the dataset is one `url.JoinPath` cleans away
   now : Nat := 0
   evs : List MEv := []
   stopped : Bool := false
 
 def mInit (args : List String) : MSt :=
   let nat (k : String) := ((kv args k).getD "0").toNat?.getD 0
-  let bad := (List.range (nat "nd")).filter fun i => (parseDest ((kv args s!"d{i}").getD "?")).2
+  let bad := (List.range (nat "nd")).filter fun i => (parseDest ((kv args s!"d{i}").getD "?")).2 != "ok"
   { mb := nat "mb", bt := nat "bt" * 1000000, bad := bad }
 
 def fail (sig what : String) : Fail := { prop := "C26", sig := sig, what := what }
@@ -182,7 +201,9 @@ def monGroup (m : MSt) (grp : String) : MSt × List Fail :=
   match grp.splitOn "@" with
   | [lbl, recsS] =>
     match (tail1 lbl).toNat? with
-    | none => (m, [fail "C26:request-to-unknown-destination" s!"a request went to {lbl}, which is no event's (host, key, dataset)"])
+    | none =>
+      let path := match lbl.splitOn "~" with | [_, p, _] => p | _ => "?"
+      (m, [fail s!"C26:request-not-to-own-dataset:path={path}" s!"a request went to {lbl}, which is no event's (host, /1/batch/<dataset>, key)"])
     | some di =>
       let recs := (recsS.splitOn ",").map fun r => r.splitOn "|"
       let perRec : List Fail := recs.flatMap fun r =>
